@@ -38,7 +38,7 @@ def run(ck: Check):
                "temperature {0.3, 1, 7} x grad_factor {1, 1.3 (and 2, 2.1 in the thorough tier)}, three repeated calls, the probe rows embedded in two different batches "
                "(and two leading shapes for dense), after a training-mode forward, and after in-place weight changes; outputs compared "
                "exactly with the reference circuit (Python mirror for volume, Model/ConvNet.eval_net in the kernel for a subset). "
-               "Non-trivial: at least two distinct non-pass-through gates. Distinct = canonical JSON of the architecture + gates.")
+               "Non-trivial: at least two distinct non-pass-through gates. Distinct = canonical JSON of the architecture + gates. Also: models converted to float64 / bfloat16 / float16 (single layers, stacks in which a Walsh layer or a frozen thermometer feeds a raw convolution, class groups wider than the 16-bit integer range), gradient factors that are not dyadic.")
     ck.translate("Dispatch", t_disp.gen_dispatch)
     ck.translate("Ops", t_ops.gen_ops)
     ck.prove("Props/C03", THEOREMS)
